@@ -4,8 +4,9 @@
 \* numeric edge lines and hand-written malformed streams.
 EXTENDS Receive, WireGen
 
-A(fs, b) == [r |-> [frames |-> <<[fields |-> fs, bin |-> b]>>, err |-> <<>>], list |-> FALSE]
-L(frs, e) == [r |-> [frames |-> frs, err |-> e], list |-> TRUE]
+A(fs, b) == [r |-> [frames |-> <<[fields |-> fs, bin |-> b]>>, err |-> <<>>], list |-> FALSE, junk |-> <<>>]
+L(frs, e) == [r |-> [frames |-> frs, err |-> e], list |-> TRUE, junk |-> <<>>]
+J(frs, e, lst, j) == [r |-> [frames |-> frs, err |-> e], list |-> lst, junk |-> j]
 F(fs, b) == [fields |-> fs, bin |-> b]
 E1 == << <<53>>, <<48>>, <<>>, <<120>> >>
 E2 == << <<53,48>>, <<49>>, <<112,108,97,121>>, <<120,32,121>> >>
@@ -17,13 +18,15 @@ DesignAbs == {
   A(<<>>, <<<<79,75,10>>>>),
   A(<<<<Ka, <<98,105,110,97,114,121,58,32,51>>>>>>, <<<<10>>>>),
   A(<<<<Ka, <<98>>>>>>, <<<<>>>>),
-  [r |-> [frames |-> <<>>, err |-> E1], list |-> FALSE],
+  [r |-> [frames |-> <<>>, err |-> E1], list |-> FALSE, junk |-> <<>>],
+  J(<<>>, E1, FALSE, <<<<Ka, <<98>>>>>>),
+  J(<<F(<<<<Ka, <<98>>>>>>, <<>>)>>, E2, TRUE, <<<<KB, <<79,75>>>>>>),
   L(<<F(<<<<Ka, <<98>>>>>>, <<>>), F(<<>>, <<>>)>>, <<>>),
   L(<<F(<<>>, <<<<0,255>>>>)>>, <<>>),
   L(<<F(<<<<Ka, <<98>>>>>>, <<>>)>>, E2),
   L(<<>>, E2) }
 Base == {Enc(a) : a \in DesignAbs}
-Pairs == {Enc(a) \o Enc(b) : a \in {A(<<>>, <<>>), A(<<<<Ka, <<98>>>>>>, <<>>), A(<<>>, <<<<79,75,10>>>>), [r |-> [frames |-> <<>>, err |-> E1], list |-> FALSE]},
+Pairs == {Enc(a) \o Enc(b) : a \in {A(<<>>, <<>>), A(<<<<Ka, <<98>>>>>>, <<>>), A(<<>>, <<<<79,75,10>>>>), [r |-> [frames |-> <<>>, err |-> E1], list |-> FALSE, junk |-> <<>>]},
                              b \in {A(<<<<KB, <<79,75>>>>>>, <<>>), L(<<F(<<>>, <<>>)>>, <<>>)}}
 Truncs(S) == UNION {{SubSeq(s, 1, n) : n \in 0..(Len(s) - 1)} : s \in S}
 \* single-edit mutations over a class alphabet (LF, blank, colon, digit, letter, 0xFF, NUL)
@@ -31,7 +34,7 @@ Alphabet == {10, 32, 58, 48, 65, 255, 0}
 Deletes(s) == {SubSeq(s, 1, k - 1) \o SubSeq(s, k + 1, Len(s)) : k \in 1..Len(s)}
 Flips(s) == {[s EXCEPT ![k] = c] : k \in 1..Len(s), c \in Alphabet}
 Inserts(s) == {SubSeq(s, 1, k) \o <<c>> \o SubSeq(s, k + 1, Len(s)) : k \in 0..Len(s), c \in Alphabet}
-MutBase == {Enc(A(<<<<Ka, <<98>>>>>>, <<>>)), Enc(A(<<>>, <<<<79,75,10>>>>)), Enc([r |-> [frames |-> <<>>, err |-> E1], list |-> FALSE]),
+MutBase == {Enc(A(<<<<Ka, <<98>>>>>>, <<>>)), Enc(A(<<>>, <<<<79,75,10>>>>)), Enc([r |-> [frames |-> <<>>, err |-> E1], list |-> FALSE, junk |-> <<>>]),
             Enc(L(<<F(<<<<Ka, <<98>>>>>>, <<>>)>>, <<>>))}
 Muts == UNION {Deletes(s) \cup Flips(s) \cup Inserts(s) : s \in MutBase}
 Raw == {
